@@ -8,7 +8,12 @@ Driver for C18.  One request per fitted forest and batch of query points:
   "points":[{"trees":[[mean_t,var_t],..],"got":[mean_plain,mean_std,sd,mean_dis,sd_al,sd_ep]},..]}`
 
 `got` are the implementation's outputs (exact rationals of the doubles; the stds, not squared).
-Reply per point: the model's exact values and the tolerance verdicts.
+Reply per point: the model's exact values and the tolerance verdicts; `blocks` (optional) = the tree
+indices each worker thread handled (C18_blocks); `batch_rows` = the vectorised batch model agrees with the
+per-row model (C18_batch).
+
+`{"op":"acq","minvar":r,"tolv":r,"points":[{"trees":[..],"used_plain":r,"used_d":r},..]}`: the std read by
+the plain / `d` acquisitions (observed as `-LCB(kappa="inf")`, `-LCBd(kappa="inf")`) against `acqMoments`.
 -/
 
 open Lean DH.Wire DH.Forest
@@ -18,7 +23,8 @@ def jPair (j : Json) : Except String (Rat × Rat) := do
   | [a, b] => return (a, b)
   | _ => throw "expected [mean, var]"
 
-def point (minVar tolv tolm : Rat) (order : List Nat) (j : Json) : Except String Json := do
+def point (minVar tolv tolm : Rat) (order : List Nat) (blocks : Option (List (List Nat))) (j : Json) :
+    Except String (Json × List TreeOut × Option (Rat × StdOut × DisOut)) := do
   let trees ← jList jPair (← field j "trees")
   let got ← jList jRat (← field j "got")
   let idOrder := List.range trees.length
@@ -29,20 +35,59 @@ def point (minVar tolv tolm : Rat) (order : List Nat) (j : Json) : Except String
     let orderIndep :=
       predictMean trees idOrder == some m && predictStd minVar trees idOrder == some s &&
       predictDis minVar trees idOrder == some d
-    return Json.mkObj [
+    -- C18_blocks: the two-level accumulation over the observed per-thread blocks = the flat fold
+    let blocksOk := match blocks with
+      | none => true
+      | some bs => predictMeanBlocks trees bs == some m && predictStdBlocks minVar trees bs == some s &&
+          predictDisBlocks minVar trees bs == some d
+    -- C18_floor on the model's own values
+    let floorOk := decide (minVar ≤ d.al) && decide (minVar ≤ s.var) && decide (rmax (rawAl trees) minVar ≤ d.al)
+    return (Json.mkObj [
       ("mean", ofRat m), ("var", ofRat s.var), ("al", ofRat d.al), ("ep", ofRat d.ep),
       ("scale", ofRat scale),
       ("means_agree", s.mean == m && d.mean == m),
       ("total_law", s.var == d.al + d.ep),
       ("order_indep", orderIndep),
+      ("blocks_indep", blocksOk),
+      ("floor_law", floorOk),
       ("mean_ok", ofBools [closeTo tolm am g0 m, closeTo tolm am g1 m, closeTo tolm am g2 m]),
       ("var_ok", closeTo tolv scale (gsd * gsd) s.var),
       ("al_ok", closeTo tolv scale (gal * gal) d.al),
       ("ep_ok", closeTo tolv scale (gep * gep) d.ep),
       ("sum_ok", closeTo (3 * tolv) scale (gsd * gsd) (gal * gal + gep * gep)),
-      ("nonneg", decide (0 ≤ gsd) && decide (0 ≤ gal) && decide (0 ≤ gep))]
+      ("nonneg", decide (0 ≤ gsd) && decide (0 ≤ gal) && decide (0 ≤ gep))], trees, some (m, s, d))
   | none, _, _, _ => throw "no trees"
   | _, _, _, _ => throw "bad point (need 6 got values)"
+
+/-- C18_batch: the vectorised model on the whole batch against the per-row results -/
+def batchOk (minVar : Rat) (order : List Nat) (cols : List (List TreeOut))
+    (rows : List (Rat × StdOut × DisOut)) : Except String Bool := do
+  let ntrees := (cols.head?.map List.length).getD 0
+  if cols.any (fun c => c.length != ntrees) then throw "points with different numbers of trees"
+  let nrows := cols.length
+  let treeRows : List TreeRows := (List.range ntrees).map (fun i => cols.filterMap (fun c => c[i]?))
+  return predictMeanBatch nrows treeRows order == some (rows.map (·.1)) &&
+    predictStdBatch minVar nrows treeRows order == some (rows.map (·.2.1)) &&
+    predictDisBatch minVar nrows treeRows order == some (rows.map (·.2.2))
+
+/-- which std an acquisition read: `used_plain = -LCB(kappa="inf")`, `used_d = -LCBd(kappa="inf")` -/
+def acqPoint (minVar tolv : Rat) (j : Json) : Except String Json := do
+  let trees ← jList jPair (← field j "trees")
+  let up ← jRat (← field j "used_plain")
+  let ud ← jRat (← field j "used_d")
+  let order := List.range trees.length
+  match acqMoments false true minVar trees order, acqMoments true true minVar trees order,
+      acqMoments true false minVar trees order with
+  | some p, some d, some f =>
+    let scale := specScale minVar trees
+    return Json.mkObj [
+      ("sel_plain", ofRat p.2), ("sel_d", ofRat d.2), ("scale", ofRat scale),
+      -- C18_dacq_epistemic / C18_acq_total on the model's own values
+      ("model_ok", d == (specMean trees, specEp trees) && decide (d.2 ≤ p.2) && f == p &&
+        decide (lcb id none p ≤ lcb id none d)),
+      ("plain_ok", closeTo tolv scale (up * up) p.2 && decide (0 ≤ up)),
+      ("d_ok", closeTo tolv scale (ud * ud) d.2 && decide (0 ≤ ud))]
+  | _, _, _ => throw "no trees"
 
 def handle (j : Json) : Except String Json := do
   let op ← (← field j "op").getStr?
@@ -52,7 +97,16 @@ def handle (j : Json) : Except String Json := do
     let tolv ← jRat (← field j "tolv")
     let tolm ← jRat (← field j "tolm")
     let order ← jList jNat (← field j "order")
-    let pts ← jList (point minVar tolv tolm order) (← field j "points")
+    let blocks ← match j.getObjVal? "blocks" with
+      | .ok b => (jList (jList jNat) b).map some
+      | .error _ => pure none
+    let res ← jList (point minVar tolv tolm order blocks) (← field j "points")
+    let bok ← batchOk minVar order (res.map (·.2.1)) (res.filterMap (·.2.2))
+    return Json.mkObj [("ok", true), ("batch_rows", bok), ("points", Json.arr (res.map (·.1)).toArray)]
+  | "acq" =>
+    let minVar ← jRat (← field j "minvar")
+    let tolv ← jRat (← field j "tolv")
+    let pts ← jList (acqPoint minVar tolv) (← field j "points")
     return Json.mkObj [("ok", true), ("points", Json.arr pts.toArray)]
   | _ => throw s!"unknown op {op}"
 
